@@ -163,3 +163,10 @@ pub(super) struct ZeroRttCrypto {
     pub(super) header: Box<dyn HeaderKey>,
     pub(super) packet: Box<dyn PacketKey>,
 }
+
+#[cfg(feature = "__verif-hooks")]
+#[allow(missing_docs, unreachable_pub, dead_code, unused_imports, unused_qualifications)]
+pub mod verif {
+    use super::*;
+    include!(concat!(env!("QUINN_VERIF_HOOKS"), "/proto/connection/packet_crypto.rs"));
+}
